@@ -240,7 +240,17 @@ func registryFacts(s *src, f *facts) {
 				return false
 			}
 			i := enclosing[*ast.IfStmt](root, c)
-			return i != nil && s.str(i.Cond) == recv+"."+name+" != nil"
+			if i == nil || s.str(i.Cond) != recv+"."+name+" != nil" {
+				return false
+			}
+			// a plain, synchronous call: one of the guard's own statements — not `go hook(id)` / `defer hook(id)`, which
+			// would run outside the critical section that changes the enumeration
+			for _, st := range i.Body.List {
+				if es, ok := st.(*ast.ExprStmt); ok && es.X == ast.Expr(c) {
+					return true
+				}
+			}
+			return false
 		}))
 	}
 	rc := hookCall(sb, "r.hooks", "OnClientConnect")
